@@ -18,6 +18,8 @@ FirstBad(rec) ==
 StreamOps == {"Token", "More", "InputOffset", "UseNumber", "DisallowUnknownFields"}
 Modelled(rec) == /\ rec.kind = "decoder" /\ rec.valid /\ ~rec.fed
                  /\ \A i \in 1..Len(rec.steps) : rec.steps[i][1] \in StreamOps
+                 /\ LET toks == Finish(Run(Opt(TRUE, TRUE, MaxD), rec.input)).toks IN
+                    \A i \in 1..Len(toks) : ~NumBorderline(rec.input, toks[i])
 IsPrefixOf(p, s) == Len(p) <= Len(s) /\ SubSeq(s, 1, Len(p)) = p
 StreamCheck(rec) ==
     LET toks == Finish(Run(Opt(TRUE, TRUE, MaxD), rec.input)).toks
